@@ -19,9 +19,12 @@ def run(ctx):
     ctx.check(len(assigns) == 2, f"{P}.INDEX-FORMULA", site, "point -> index conversion in the single-box case and in the "
                                                              "between-boxes case", f"{len(assigns)} conversions", key="sites")
     pt, lo, dx = A("point"), A("self.geo_low"), A("dx")
+    fenv = local_env(fi.node)
+    for nm in ("point", "dx", "point_idx"):
+        fenv[nm] = None
     for i, a in enumerate(assigns):
-        formulas.formula_rule(ctx, f"{P}.INDEX-FORMULA", fi, a.value, (pt - lo) / dx - A("1") / 2 if False else (pt - lo) / dx - 0.5,
-                              (), "cell index of a physical point = (point - geo_low)/dx - 1/2", f"case{i + 1}", {})
+        formulas.formula_rule(ctx, f"{P}.INDEX-FORMULA", fi, a.value, (pt - lo) / dx - 0.5,
+                              (), "cell index of a physical point = (point - geo_low)/dx - 1/2", f"case{i + 1}", fenv)
     # which dx
     dxs = [n for n in walk_no_nested(fi.node) if isinstance(n, ast.Assign) and norm(n.targets[0]) == "dx"]
     vals = [norm(d.value) for d in dxs]
